@@ -74,6 +74,15 @@ func BuildTargets(levelSizes []int64, opt TargetOptions) Targets {
 	if b < len(levelSizes)-1 && levelSizes[b] == 0 && levelSizes[b+1] < t.TargetSz[b+1] {
 		t.BaseLevel++
 	}
+
+	// Never go below a level that still holds tables: L0 output placed under
+	// it would be shadowed by the older data above.
+	for i := 1; i < t.BaseLevel; i++ {
+		if levelSizes[i] > 0 {
+			t.BaseLevel = i
+			break
+		}
+	}
 	return t
 }
 
